@@ -156,7 +156,27 @@ theorem crashStep_measure (env : Env) (G : Guards) (i n : Nat) (sh sh' : Sh) (p 
     simp only [Proc.measure, PC.rank]
     cases hpc : p.pc <;> simp [hpc, PC.terminal] at ht ⊢
 
-theorem gstep_measure_aux (env : Env) (G : Guards) (s s' : St) (l : Lbl)
+attribute [local irreducible] finishLoader leaveRead loaderChecks loaderRaise leaveWrite writerRaise runQueries Proc.measure in
+theorem failStep_measure (env : Env) (G : Guards) (e : Exc) (n : Nat) (sh sh' : Sh) (p p' : Proc)
+    (h : failStep env G e n sh p = some (sh', p')) : p'.measure < p.measure := by
+  have hm : p.measure = p.todo.length * 32 + p.pc.rank := by simp only [Proc.measure]
+  unfold failStep at h
+  split at h
+  · cases h
+  · split at h
+    all_goals first
+      | (cases h; done)
+      | (rename_i hpc; rw [hm, hpc]; simp only [PC.rank]
+         simp only [Option.some.injEq, Prod.mk.injEq] at h
+         obtain ⟨-, rfl⟩ := h)
+    all_goals first
+      | (apply lt_lvr)
+      | (apply lt_lr)
+      | (apply lt_lvw)
+      | (apply lt_wr)
+    all_goals omega
+
+theorem gstep_measure_aux (env : Env) (G : Guards) (s s' : St) (l : Lbl) (hl : l.isWipe = false)
     (h : gstep env G s l = some s') : s'.totalMeasure < s.totalMeasure := by
   unfold gstep at h
   split at h
@@ -176,10 +196,20 @@ theorem gstep_measure_aux (env : Env) (G : Guards) (s s' : St) (l : Lbl)
       · rename_i sh' p' hs
         simp only [Option.some.injEq] at h; subst h
         exact sum_set_lt _ _ _ _ _ hp (crashStep_measure _ _ _ _ _ _ _ _ hs)
+  · split at h
+    · cases h
+    · rename_i p hp
+      split at h
+      · cases h
+      · rename_i sh' p' hs
+        simp only [Option.some.injEq] at h; subst h
+        exact sum_set_lt _ _ _ _ _ hp (failStep_measure _ _ _ _ _ _ _ _ hs)
+  · simp [Lbl.isWipe] at hl
 
-/-- a schedule is never longer than the initial bound -/
+/-- a schedule is never longer than the initial bound (wipes do not count: they do not change the processes) -/
 theorem sched_length_le_aux (env : Env) (G : Guards) (s s' : St) (sched : List Lbl)
-    (h : runSched env G s sched = some s') : sched.length + s'.totalMeasure ≤ s.totalMeasure := by
+    (h : runSched env G s sched = some s') :
+    (sched.filter (fun l => !l.isWipe)).length + s'.totalMeasure ≤ s.totalMeasure := by
   induction sched generalizing s with
   | nil => simp [runSched] at h; subst h; simp
   | cons l ls ih =>
@@ -188,7 +218,16 @@ theorem sched_length_le_aux (env : Env) (G : Guards) (s s' : St) (sched : List L
     · cases h
     · rename_i s1 hs1
       have := ih s1 h
-      have := gstep_measure_aux env G s s1 l hs1
-      simp only [List.length_cons]; omega
+      cases hw : l.isWipe with
+      | false =>
+        have := gstep_measure_aux env G s s1 l hw hs1
+        simp only [List.filter_cons, hw, Bool.not_false, if_true, List.length_cons]; omega
+      | true =>
+        have hl : l = .wipe := by cases l <;> simp [Lbl.isWipe] at hw ⊢
+        subst hl
+        simp only [gstep, Option.some.injEq] at hs1
+        subst hs1
+        simp only [List.filter_cons, hw, Bool.not_true]
+        exact this
 
 end SpsdkVerif.DbCache.Sched
